@@ -121,6 +121,17 @@ func makeIntrinsics() map[string]intrinsic {
 		st.draws = append(st.draws, drawRec{label, "len", []*Term{l}})
 		return &Str{Len: l}
 	}
+	m[V+"Atomically"] = func(st *State, fr *frame, a []value, cc *ssa.CallCommon) value {
+		snap := st.snapshotColls()
+		cl := a[1].(*closure)
+		r := st.callFunction(fr, cl.Fn, append([]value{a[0]}, cl.Env...), nil)
+		if e, ok := r.(iface); ok && e.t != nil {
+			st.colls = snap
+		}
+		return r
+	}
+	m["google.golang.org/grpc/status.Error"] = func(st *State, fr *frame, a []value, cc *ssa.CallCommon) value { return newErr(st, "grpc-status") }
+	m["google.golang.org/grpc/status.Errorf"] = func(st *State, fr *frame, a []value, cc *ssa.CallCommon) value { return newErr(st, "grpc-status") }
 	m[V+"Uint32"] = func(st *State, fr *frame, a []value, cc *ssa.CallCommon) value {
 		label, _ := a[0].(*Str).Concrete()
 		x := st.freshVar(label, BV(32))
